@@ -268,6 +268,43 @@ func C12(t *rapid.T) *world.Scenario {
 			}
 		}
 	}
+	// A repeated directive means its first occurrence (RFC 9111 §4.2.1), so a reordering
+	// respelling would change the meaning: later repetitions are dropped here - except for
+	// no-cache, whose unqualified form prevails whatever the order.
+	dedupe := func(v string) string {
+		seen := map[string]bool{}
+		var keep []string
+		for _, d := range splitCanonical(v) {
+			name, _, _ := strings.Cut(d, "=")
+			name = strings.ToLower(strings.TrimSpace(name))
+			if seen[name] && name != "no-cache" {
+				continue
+			}
+			seen[name] = true
+			keep = append(keep, d)
+		}
+		return JoinCC(keep)
+	}
+	for _, st := range sc.Steps {
+		if st.Op != "req" {
+			continue
+		}
+		for hi, kv := range st.Req.Header {
+			if kv[0] == "Cache-Control" {
+				st.Req.Header[hi] = H("Cache-Control", dedupe(kv[1]))
+			}
+		}
+		for _, rp := range []*world.Reply{&st.Req.Uncond, st.Req.Cond, st.Req.Bg} {
+			if rp == nil {
+				continue
+			}
+			for hi, kv := range rp.Header {
+				if kv[0] == "Cache-Control" {
+					rp.Header[hi] = H("Cache-Control", dedupe(kv[1]))
+				}
+			}
+		}
+	}
 	// Values >= 2^31 are interchangeable only while every age in the history stays below
 	// 2^31 s: no other ten-digit number (Age, max-stale, ...) may be in play.
 	allowHuge := !hasLongNumber(sc)
